@@ -812,11 +812,13 @@ class VExec(Exec):
                     env[p] = self.new_object((self_cls or fi.cls).qualname, 'self')
             else:
                 env[p] = I.sym(p, kind)
+        self.setup_bools = []
         if con.setup:
             con.setup(self, env)
         if variant is not None:
             variant[1](self, env)
             self.note(f'variant:{variant[0]}')
+        setup_bools, self.setup_bools = self.setup_bools, None
         self.spec_env_stack = [(env, dict(env))]
         for r in con.requires:
             self.assume(self.spec_bool(r, mode='assume'))
@@ -824,6 +826,16 @@ class VExec(Exec):
             self.oblige('cover', z3.BoolVal(False), f'precondition of {con.name} is satisfiable', fi.node, key=('precover',))
             raise PathEnd('requires unsat')
         self.oblige('cover', z3.BoolVal(True), f'precondition of {con.name} is satisfiable', fi.node, key=('precover',))
+        # vacuity guard: every Boolean unknown the set-up introduces (worker closed?, dead?, started?, ...) must still be able to take both values
+        # once the set-up's assumptions and the preconditions are in force - a case silently excluded there is a case the lemma does not cover
+        exempt = con.options.get('fixed_by_setup', ())
+        for b in setup_bools:
+            nm = str(b)
+            if any(nm == e or nm.startswith(e + '!') for e in exempt):
+                continue
+            for val in (True, False):
+                self.oblige('cover', b if val else z3.Not(b), f'set-up of {con.name}: the case {nm} == {val} is not excluded by the set-up (vacuity guard)',
+                            fi.node, key=('setup-cover', nm, val))
         self.old = self.snapshot()
         self.spec_env_stack = [(env, dict(env))]
         fr = Frame(fi, parent=closure_frame)
